@@ -241,6 +241,15 @@ def run(p: Program, rep: Report, tier: str) -> None:
                 if isinstance(g_, FuncInfo) and g_.is_generator() and not n.value.keywords and len(n.value.args) <= len(g_.params):
                     gen = g_
                     argmap = {pn: ast.unparse(a) for pn, a in zip(g_.params, n.value.args)}
+    # what ensure_next hands back is closed by the server (PEP 3333) and that close() has to reach the inner application's iterable:
+    # a generator (`yield first; yield from iterator`) forwards it, an itertools object (chain / islice / map ...) has no close() at all
+    for n in walk_shallow(en.node):
+        if isinstance(n, ast.Return) and isinstance(n.value, ast.Call):
+            r_ = p.resolve_call(en, n.value)
+            if isinstance(r_, tuple) and r_[0] in ("ext", "builtin") and (str(r_[1]).startswith("itertools.") or r_[1] in ("map", "filter", "zip", "iter", "enumerate")):
+                rep.violation("R20.3", construct(en, text=f"returns {str(r_[1])}(...)"), where(en, n),
+                              f"ensure_next returns `{ast.unparse(n.value)[:60]}`: a {r_[1]} object has no close(), so when the server closes the response the inner application's iterable "
+                              "(a streaming generator with cleanup, an event-stream relay) is never closed", positive=True)
     it_names: Set[str] = set()
     advanced: List[str] = []
     anon_advance = None
